@@ -43,28 +43,38 @@ Definition rinlist (p : rpc) : bool :=
   | _ => false
   end.
 
+Definition rstart_actx (f : option (rw * bool)) (a : ractx) : Prop :=
+  match f with
+  | None => (exists k, a = RALock k) \/ (exists k, a = RAFirst k true) \/ (exists k, a = RATry k)
+            \/ (exists k, a = RAFirst k false)
+  | Some (k', _) => (exists k, a = RATry k) \/ a = RAPoll k' false
+  end.
+
+Lemma rw_eqb_eq a b : rw_eqb a b = true -> a = b.
+Proof. destruct a, b; cbn; congruence. Qed.
+
 Lemma rdispatch_inv s t c p s' e :
   rdispatch s t c p = Some (s', e) ->
   exists p',
     ((rfut s t <> None /\ rdo_llswap (rs_prog s t p') t RLDrop = Some (s', e)) \/
      (rfut s t <> None /\ rdo_wait (rs_prog s t p') t c = Some (s', e))) \/
-    (exists a, (forall k l, a <> RASpin k l) /\ rdo_taload (rs_prog s t p') t a = Some (s', e)).
+    (exists a, rstart_actx (rfut s t) a /\ rdo_taload (rs_prog s t p') t a = Some (s', e)).
 Proof.
   revert s. induction p as [|o r IH]; intros s H; cbn [rdispatch] in H.
   - destruct (rfut s t) eqn:F; [|discriminate]. exists []. left. left. split; [congruence|exact H].
   - destruct o.
     + destruct (rfut s t) eqn:F.
       * exists (ROLock k :: r). left. left. split; [congruence|exact H].
-      * exists r. right. exists (RALock k). split; [discriminate|exact H].
-    + exists r. right. exists (RATry k). split; [discriminate|exact H].
+      * exists r. right. exists (RALock k). split; [cbn; eauto|exact H].
+    + exists r. right. exists (RATry k). split; [|exact H]. destruct (rfut s t) as [[k' b]|]; cbn; eauto.
     + destruct (rfut s t) eqn:F.
       * exists (ROAsync k :: r). left. left. split; [congruence|exact H].
-      * exists r. right. exists (RAFirst k true). split; [discriminate|exact H].
+      * exists r. right. exists (RAFirst k true). split; [cbn; eauto|exact H].
     + destruct (rfut s t) as [[k' b]|] eqn:F.
-      * destruct (rw_eqb k k').
-        -- exists r. right. exists (RAPoll k false). split; [discriminate|exact H].
+      * destruct (rw_eqb k k') eqn:EK.
+        -- apply rw_eqb_eq in EK. subst k'. exists r. right. exists (RAPoll k false). split; [cbn; auto|exact H].
         -- exists (ROPoll k :: r). left. left. split; [congruence|exact H].
-      * exists r. right. exists (RAFirst k false). split; [discriminate|exact H].
+      * exists r. right. exists (RAFirst k false). split; [cbn; eauto 6|exact H].
     + destruct (rfut s t) eqn:F.
       * exists r. left. left. split; [congruence|exact H].
       * apply IH in H. rewrite F in H. exact H.
@@ -106,7 +116,13 @@ Ltac rstep_cases H :=
     let y := fresh "v" in remember (rpcs s t) as y eqn:Epc in H; symmetry in Epc; destruct y end;
   [ apply rdispatch_inv in H;
     let p' := fresh "p'" in let a := fresh "a" in let Ha := fresh "Ha" in let Hf := fresh "Hf" in
-    destruct H as [p' [[[Hf H]|[Hf H]]|[a [Ha H]]]]
+    destruct H as [p' [[[Hf H]|[Hf H]]|[a [Ha H]]]];
+    [ | | unfold rstart_actx in Ha;
+          match type of Ha with context [rfut ?s ?t] =>
+            let y := fresh "v" in remember (rfut s t) as y eqn:Ef in Ha; symmetry in Ef;
+            destruct y as [[? ?]|] end;
+          repeat match type of Ha with _ \/ _ => destruct Ha as [Ha|Ha] end;
+          lazymatch type of Ha with ex _ => destruct Ha as [? Ha] | _ => idtac end; subst a ]
   | .. ];
   unfold rdo_taload, ta_fail, rdo_llswap, rdo_wait, rafter_llock, rblock_next, rdo_fix1, after_acq_a, rret in H;
   rsimpl; cbv beta iota zeta in H;
